@@ -208,6 +208,12 @@ class World:
             elif kind == "await_window":      # what an application polling send_ready() does: go on once the window has reopened
                 if not (ch.out_window_size > 0 or ch.closed):
                     self.S.block(lambda: ch.out_window_size > 0 or ch.closed, None, "await_window")
+            elif kind == "await_below":       # ... until a writer has taken window again (out_window_size < op[1])
+                if not (ch.out_window_size < op[1] or ch.closed):
+                    self.S.block(lambda: ch.out_window_size < op[1] or ch.closed, None, "await_below")
+            elif kind == "await_zero":        # ... and this one waits until the window is used up
+                if not (ch.out_window_size == 0 or ch.closed):
+                    self.S.block(lambda: ch.out_window_size == 0 or ch.closed, None, "await_zero")
             elif kind == "close":
                 ch.close()
             elif kind == "shutdown_write":
@@ -332,7 +338,60 @@ def modules():
     return pch, bp
 
 
+class GapChooser:
+    """hand-over gap schedules: threads run in name order without preemption, except that the k-th thread that arrives at
+    a hand-over (parked before Transport._send_user_message, its message built and the channel lock released) is held
+    there until no other thread can run.  k = 0: no hold.  This is the shape of every overtaking race of the channel
+    (a message in the gap while close / shutdown / peer CLOSE / another writer's refused send go ahead); one schedule per
+    hand-over instead of a search."""
+    def __init__(self, k):
+        self.k, self.S = k, None
+        self.seen, self.count, self.held, self.last = set(), 0, None, None
+
+    def begin(self):
+        pass
+
+    def pick(self, options):
+        names = [o[0] for o in options]
+        for t in self.S.threads:
+            if t.state == "ready" and getattr(t, "at", None) == "emit" and t.where == "emit" and (t.name, t.steps) not in self.seen:
+                self.seen.add((t.name, t.steps))
+                self.count += 1
+                if self.count == self.k:
+                    self.held = t.name
+        free = [n for n in names if n != self.held and n != "tick"]
+        if free:
+            pick = self.last if self.last in free else sorted(free)[0]
+        elif self.held in names:
+            pick, self.held = self.held, None
+        else:
+            pick = names[0]
+        self.last = pick
+        return names.index(pick)
+
+
+def explore_gaps(prog, max_runs=12, max_steps=3000):
+    sc0 = scenario(prog)
+    with ls.patched(*modules()):
+        k, total = 0, None
+        while k <= (total if total is not None else 0) and k < max_runs:
+            ch = GapChooser(k)
+
+            def sc(S, ch=ch):
+                ch.S = S
+                return sc0(S)
+            ex = ls.run_once(sc, ch, max_steps=max_steps)
+            if total is None:
+                total = ch.count
+            yield ex
+            k += 1
+
+
 def explore(prog, mode, bound=2, max_runs=500, seed=0, max_steps=3000, p_switch=0.35):
+    if mode == "gaps":
+        for ex in explore_gaps(prog, max_runs=max_runs, max_steps=max_steps):
+            yield ex
+        return
     sc = scenario(prog)
     with ls.patched(*modules()):
         if mode == "dfs":
@@ -601,14 +660,14 @@ class Runs:
         return len(self.items)
 
 
-def explore_into(runs, c, progs, dfs_runs, rnd_runs, deadline, bound=1, max_steps=2500, stop_on_budget=True, tag="p"):
+def explore_into(runs, c, progs, dfs_runs, rnd_runs, deadline, bound=1, max_steps=2500, stop_on_budget=True, tag="p", gap_runs=0):
     """every program: DFS over schedules with <= bound preemptions (capped), then seeded random schedules;
     stops early when the wall-clock deadline has passed (at least one schedule per program is always run)"""
     import time
     for pi, prog in enumerate(progs):
         n = 0
         spun = False
-        for mode, cap in (("dfs", dfs_runs), ("random", rnd_runs)):
+        for mode, cap in (("gaps", gap_runs), ("dfs", dfs_runs), ("random", rnd_runs)):
             if cap <= 0 or spun:
                 continue
             for ex in explore(prog, mode, bound=bound, max_runs=cap, seed=c.seed * 7919 + pi, max_steps=max_steps):
